@@ -230,6 +230,13 @@ def setattr_(interp, o, attr, value, node=None):
         return
     if hasattr(o, 'sym_setattr'):
         return o.sym_setattr(interp, attr, value, node)
+    if isinstance(o, SubV):
+        # substances are immutable values handed in by the caller: storing an attribute on one is an observable write to
+        # an argument whatever happens next (the effect on a symbolic substance is not modelled: the path ends here)
+        interp.__dict__.setdefault('definite', []).append(
+            {'name': 'frame[substance-attribute]', 'note': f"line {ln}: store to attribute {attr!r} of a Substance argument "
+                                                           f"in {interp.call_stack[-1] if interp.call_stack else '?'}"})
+        raise Unsupported(f"attribute store on a Substance (line {ln})")
     raise Unsupported(f"attribute store on {type(o).__name__}")
 
 
